@@ -147,7 +147,10 @@ EDGE_STRINGS = [bytes([b]) for b in range(256)] + [
     b"\x01\x02\x03\x04\x05\x06\x0e\x0f\x10\x11\x12\x13\x14\x15\x16\x17\x18\x19\x1a\x1b\x1c\x1d\x1e\x1f",
     # valid text ending in a truncated multi-byte sequence; U+FFFD itself next to invalid bytes; format verbs
     b"abc \xc3", "日本語".encode()[:8], b"\xf0\x9f\x98", b"ok\xe2\x82", b"\xc3\xa9\xc3", b"\xef\xbf\xbd\xff", b"\xff\xef\xbf\xbd",
-    b"%d%s%", b"%!v(MISSING)", "\u20ac\U0001f600".encode()]
+    b"%d%s%", b"%!v(MISSING)", "\u20ac\U0001f600".encode(),
+    # fewer than 256 characters, more than 255 bytes (and the reverse cannot happen): the one-byte length counts BYTES
+    ("\u044f" * 200).encode(), ("\u20ac" * 100).encode(), ("\u00e9" * 128).encode(), ("\u00e9" * 127 + "a").encode(), ("\U0001f600" * 64).encode(),
+    ("\u00e9" * 255).encode()]
 
 
 def edge_string_values():
@@ -159,7 +162,10 @@ def edge_string_values():
         out += [("A", b), ("l", [("S", b), ("Y", b)]), ("m", [(("S", b), ("B", b))]), ("R", ("S", b)), ("R", ("Y", b)), ("R", ("B", b)),
                 ("R", ("t", [("S", b)])), ("c", b"m", b"n", [("S", b)])]
     # globals whose module or name holds a newline (only STACK_GLOBAL can carry them: documented error below protocol 4)
-    for m, n in ((b"m", b"a\n."), (b"m\n", b"n"), (b"m", b"\n"), (b"\nm", b"n\n"), (b"mod", b"a\nb"), (b"m", b"n")):
+    for m, n in ((b"m", b"a\n."), (b"m\n", b"n"), (b"m", b"\n"), (b"\nm", b"n\n"), (b"mod", b"a\nb"), (b"m", b"n"),
+                 # format verbs, carriage returns, spaces, non-ASCII and non-UTF-8 bytes in names: all legal where no newline is needed
+                 (b"mod", b"a%sb"), (b"100%", b"n"), (b"%d", b"%v%%"), (b"foo\r", b"bar\r"), (b"m", b"n\r"), (b" m ", b" n"), (b"m\xc3\xa9", b"n\xe9"),
+                 (b"os.path", b"join"), (b"", b"")):
         out += [("C", m, n), ("c", m, n, [("I", 1)]), ("t", [("C", m, n), ("I", 2)])]
     # globals whose module or name is as long as / longer than a one-byte length field can say (dots inside: a cut name ends in a STOP)
     for sz in (255, 256, 257, 259, 300, 65535, 65536):
